@@ -63,7 +63,23 @@ def _tanh3(x, a, b, c):
 
 
 def _const_scalar(x, a):
-    # hostile: returns a Python scalar whatever the shape of x
+    # hostile: returns a scalar whatever the shape of x - as a Python float, a 0-d ndarray or a numpy scalar
+    # (which of the three is a deterministic function of the value, so that reference and model agree)
+    k = int(abs(float(a)) * 1e6) % 3
+    if k == 1:
+        return np.asarray(float(a))
+    if k == 2:
+        return np.float64(a)
+    return a
+
+
+def const_with_return_type(a, k):
+    """The nearby constant whose _const_scalar return type is k (0 Python float, 1 0-d ndarray, 2 numpy scalar)."""
+    a = round(float(a), 6)
+    for j in range(3):
+        b = a + j * 1e-6 * (1 if a >= 0 else -1)
+        if int(abs(b) * 1e6) % 3 == k:
+            return b
     return a
 
 
@@ -97,7 +113,80 @@ def shape_eval(dep, x, sibling_eval=None):
     if dep["shape"] == "alpha3":
         inner = sibling_eval(dep["chain"])
         return fn(x, *dep["coef"], d_of_x=inner)
+    u = dep.get("unit")
+    if u:
+        return fn(np.asarray(x, float) / u["xdiv"], *dep["coef"]) * u["mul"] + u["add"]
     return fn(x, *dep["coef"])
+
+
+# how a parameter changes when its variable is measured in another unit (x' = s * x)
+UNIT = {
+    "weibull": {"alpha": "mul", "beta": None, "gamma": "mul"},
+    "lognormal": {"mu": "addlog", "sigma": None},
+    "lnnf": {"mu_norm": "mul", "sigma_norm": "mul"},
+    "normal": {"mu": "mul", "sigma": "mul"},
+    "expweib": {"alpha": "mul", "beta": None, "delta": None},
+    "gengamma": {"m": None, "c": None, "lambda_": "div"},
+    "gamma": {"a": None, "loc": "mul", "scale": "mul"},
+    "rayleigh": {"loc": "mul", "scale": "mul"},
+    "gumbel_r": {"loc": "mul", "scale": "mul"},
+    "sc_gengamma": {"a": None, "c": None, "loc": "mul", "scale": "mul"},
+    "normalmix": {"w": None, "mu1": "mul", "mu2": "mul", "sigma": "mul"},
+}
+
+
+def rescale_spec(spec, factors):
+    """The same joint law with variable i measured in another unit (x_i' = factors[i] * x_i): scale-type parameters are
+    transformed, dependence functions are evaluated at x / s_conditioner and their value is transformed likewise.
+    Returns None where that is not expressible (circular family, chained alpha3, reciprocal scale with a dependence)."""
+    import copy
+
+    out = copy.deepcopy(spec)
+    for i, d in enumerate(out["dims"]):
+        fam = d["fam"]
+        if fam not in UNIT:
+            if factors[i] != 1:
+                return None
+            continue
+        s_own = float(factors[i])
+        c = d.get("cond")
+        s_c = float(factors[c]) if c is not None else 1.0
+        for name, v in d["params"].items():
+            how = UNIT[fam][name]
+            if isinstance(v, dict):
+                if v["shape"] == "alpha3" or any(isinstance(w, dict) and w.get("shape") == "alpha3" for w in d["params"].values()):
+                    return None
+                if how == "div":
+                    return None
+                mul, add = (s_own, 0.0) if how == "mul" else (1.0, math.log(s_own)) if how == "addlog" else (1.0, 0.0)
+                v.pop("defaults", None)
+                v["unit"] = {"xdiv": s_c, "mul": mul, "add": add}
+            else:
+                if how == "mul":
+                    d["params"][name] = v * s_own
+                elif how == "addlog":
+                    d["params"][name] = v + math.log(s_own)
+                elif how == "div":
+                    d["params"][name] = v / s_own
+    return out
+
+
+def _unit_wrap(fn, ncoef, u):
+    xdiv, mul, add = u["xdiv"], u["mul"], u["add"]
+    if ncoef == 1:
+        def f(x, a):  # noqa: E306
+            return fn(x / xdiv, a) * mul + add
+    elif ncoef == 2:
+        def f(x, a, b):  # noqa: E306
+            return fn(x / xdiv, a, b) * mul + add
+    elif ncoef == 3:
+        def f(x, a, b, c):  # noqa: E306
+            return fn(x / xdiv, a, b, c) * mul + add
+    else:
+        def f(x, a, b, c, d):  # noqa: E306
+            return fn(x / xdiv, a, b, c, d) * mul + add
+    f.__name__ = fn.__name__ + "_unit"
+    return f
 
 
 # ----------------------------------------------------------------------
@@ -382,6 +471,9 @@ def build_depfuncs(dimspec, bounds=False):
             kw["d_of_x"] = out[v["chain"]]
             dep = DependenceFunction(fn, **kw)
             dep.parameters = dict(zip(list(dep.parameters.keys()), v["coef"]))
+        elif v.get("unit"):
+            dep = DependenceFunction(_unit_wrap(fn, ncoef, v["unit"]))
+            dep.parameters = dict(zip(list(dep.parameters.keys()), v["coef"]))
         elif v.get("defaults"):
             dep = DependenceFunction(_fn_with_defaults(fn, v["coef"]))
         else:
@@ -424,6 +516,46 @@ def build_virocon(spec):
             except AttributeError:
                 pass
     return model
+
+
+def change_in_place(model, spec, rng):
+    """What a re-fit does: the SAME dependence-function objects of a live model get other parameter values
+    (`dep.parameters[...]`), and the spec dict is updated IN PLACE so that every reference built from it follows.
+    Returns the number of changed dependence functions (0: nothing admissible could be changed)."""
+    ref = RefModel(spec)
+    changed = 0
+    for i, d in enumerate(spec["dims"]):
+        c = d.get("cond")
+        if c is None:
+            continue
+        try:
+            xlo, xhi = ref.dim_range(c, eps=1e-9)
+        except Exception:  # noqa: BLE001
+            continue
+        if not (np.isfinite(xlo) and np.isfinite(xhi)):
+            continue
+        dist = model.distributions[i]
+        for name, v in list(d["params"].items()):
+            if not isinstance(v, dict) or v["shape"] in ("alpha3",) or v.get("defaults") or v.get("unit"):
+                continue
+            dep = dist.conditional_parameters[name]
+            for factor in (float(rng.uniform(1.04, 1.15)), float(rng.uniform(0.9, 0.97))):
+                new_coef = list(v["coef"])
+                new_coef[0] = new_coef[0] * factor + (0.01 if KIND[d["fam"]][name] != "pos" else 0.0)
+                trial = dict(d["params"])
+                trial[name] = {**v, "coef": new_coef}
+                if not _dim_admissible({"fam": d["fam"], "cond": 0, "params": trial}, float(xlo), float(xhi)):
+                    continue
+                keys = list(dep.parameters.keys())
+                if rng.random() < 0.5:
+                    for k_, c_ in zip(keys, new_coef):
+                        dep.parameters[k_] = c_  # item assignment, as a user would edit one coefficient
+                else:
+                    dep.parameters = dict(zip(keys, new_coef))  # what DependenceFunction.fit does
+                v["coef"] = new_coef  # same dict object as in the spec (and in dist._vmon_dimspec)
+                changed += 1
+                break
+    return changed
 
 
 # ----------------------------------------------------------------------
